@@ -28,6 +28,10 @@ func init() {
 
 func runC13(w *World, r *Report) {
 	hrEndpointKeyHasMethod(w, r, "R4")
+	hrWildcardConstant(w, r, "R3")
+	hrParamSegmentNonEmpty(w, r, "R3")
+	// an endpoint with an enabled plugin is registered with the proxy (C14.R4)
+	r.Borrow(w, c14CoveragePolicies, map[string]string{"R4": "R4"})
 	hrEarlyResponseMessage(w, r, "R4")
 	hrAnyEnabledDiagnosis(w, r, "R4")
 	hrFreshElementPerIteration(w, r, "R4", pkgRunner, "appendEndpointDiagnoses", "appendGlobalDiagnoses", "appendEndpointRemedies", "appendGlobalRemedies")
